@@ -1,5 +1,5 @@
 """C10 — thread-safe variants serialise delivery and cannot deadlock (DESIGN §3 C10)."""
-from ..core import (Finding, lock_scopes, guard_of, down_method, node_desc, SUBSCRIBE, UNSUB_NAMES, FN_CALLS)
+from ..core import (Finding, lock_scopes, guard_of, down_method, node_desc, SUBSCRIBE, UNSUB_NAMES, FN_CALLS, recv_class)
 from ..expr import access_path, strip
 from .. import roles
 from . import c06, c14
@@ -13,7 +13,7 @@ EXPLANATION = ('Static rules: L1 serialisation by typing — Observer::next take
                '(no cell is acquired while a guard of the same class or of a class that is ordered after it is held), (b) calls that leave '
                'the library upstream or into user code (subscribe, unsubscribe of a foreign subscription, stored or user closures, polling a '
                'user future) happen under a library lock only at the tabled sites; downstream observer calls only ever descend the pipeline; '
-               'L6 no panic from paired cells: where a reader unwraps cell B under the guard of cell A (A non-empty promises B non-empty), every writer empties A before B; L8 a notification handler of an observer that IS a shared state cell (merge, zip, combine_latest) enters that cell once: deciding on the shared state and acting on the decision happen in one critical section (two threads completing the two inputs at once must not both see themselves as the first one); L7 the first-subscriber hand-over of share() is one critical section (same rule as C11.P-b); L4 no lost wake-up (same rules as C14.R3/R4); L5 merge_all takes its slot decision and acts on it in one critical section (same rule as C05.F3). Together: no deadlock among library locks for callers that do not re-enter '
+               'L6 no panic from paired cells: where a reader unwraps cell B under the guard of cell A (A non-empty promises B non-empty), every writer empties A before B; L8 a notification handler of an observer that IS a shared state cell (merge, zip, combine_latest) enters that cell once: deciding on the shared state and acting on the decision happen in one critical section (two threads completing the two inputs at once must not both see themselves as the first one); L9 the handlers of observe_on(_threads)/delay(_threads) never lock the handles of the tasks they scheduled, which Remote::poll holds while the subscriber callback runs: every emission returns without waiting for a running callback (same rule as C07.T7); L7 share() tests its connection state and switches it to Connected under one guard of the ShareOp cell (two racing first subscribers cannot both find it unconnected); L4 no lost wake-up (same rules as C14.R3/R4); L5 merge_all takes its slot decision and acts on it in one critical section (same rule as C05.F3). Together: no deadlock among library locks for callers that do not re-enter '
                'from a callback. Does not decide value-dependent panics, fairness or preemption-level schedules.')
 ASSUMPTIONS = ['callers do not re-enter the same pipeline from inside a callback (the property\'s own proviso)',
                'std::sync::Mutex and RefCell are not re-entrant; guards are released at the MIR drop of the guard local']
@@ -210,10 +210,7 @@ def check(cx):
     # (an exemption that is no longer used is harmless: the code stopped calling out under that lock)
     # L7: the first-subscriber hand-over of share() is one critical section (same rule as C11.P-b): two threads that subscribe first at
     # the same time must not both find the operator unconnected (the loser would hit the unreachable!() of the state switch)
-    from . import c11
-    for f in c11.check(cx):
-        if f.rule == 'P-b':
-            res.append(Finding(ID, 'L7', f.key, f.ok, f.msg, f.loc, f.witness))
+    res += l7(cx)
     # L5: check-then-act atomicity of the flattening state (no lost wake-up of a queued inner)
     from . import c05
     res += c05.f3(cx, ID, 'L5')
@@ -222,6 +219,50 @@ def check(cx):
     # L4
     for f in c14.r3(cx) + c14.r4(cx):
         res.append(Finding(ID, 'L4', f.key, f.ok, f.msg, f.loc, f.witness))
+    # L9: an emission into observe_on_threads / delay_threads returns without waiting for a subscriber callback that is still running
+    # on the pool: the notification handlers never lock the handles of their own tasks (same rule as C07.T7) — the handle cell is
+    # held by Remote::poll for the whole callback
+    from . import c07
+    for f in c07.t7(cx):
+        res.append(Finding(ID, 'L9', f.key, f.ok, f.msg, f.loc, f.witness))
+    return res
+
+
+def l7(cx):
+    """share(): the test of the connection state and the switch to Connected are one critical section of the ShareOp cell — two
+    first subscribers racing on two threads must not both find it unconnected (the loser would take the Connected value for a
+    connectable: unreachable!()). Where connect() itself happens is C11.P-b."""
+    F = cx.facts
+    res = []
+    m = 0
+    for im in F.impls_of('observable::Observable'):
+        tag = roles.impl_tag(cx, im)
+        if tag not in ('ops::ref_count::ShareOp', 'ops::ref_count::ShareOpThreads'):
+            continue
+        m += 1
+        fn = F.impl_fn(im, 'actual_subscribe')
+        g = cx.graph(fn['key'])
+        held = lock_scopes(g)
+        reps = []
+        for x in g.nodes:
+            if x['kind'] == 'call' and x['name'] in ('std::mem::replace', 'std::mem::swap', 'std::mem::take') and x['args'] and '@' in access_path(x['args'][0])[1] and recv_class(x['args'][0]).startswith('self.0'):
+                reps.append(x)
+            if x['kind'] == 'assign' and '@' in access_path(x['lhs'])[1] and recv_class(x['lhs']).startswith('self.0'):
+                reps.append(x)
+        tests = [x for x in g.nodes if x['kind'] == 'switch' and '@' in access_path(strip(x['discr'])[1] if strip(x['discr'])[0] == 'discr' else x['discr'])[1]
+                 and recv_class(strip(x['discr'])[1] if strip(x['discr'])[0] == 'discr' else x['discr']).startswith('self.0')]
+        gt = set()
+        for x in tests:
+            gt |= {strip(h[0]) for h in held[x['id']] if h[1] == 'self.0'}
+        bad = [x for x in reps if not ({strip(h[0]) for h in held[x['id']] if h[1] == 'self.0'} & gt)]
+        ok = bool(reps) and bool(tests) and not bad
+        res.append(Finding(ID, 'L7', cx.label(fn), ok,
+                           'the connection state is tested and replaced under one guard of the ShareOp cell' if ok else
+                           ('the connection state is written under another guard than the one it was tested under (or none): two racing first subscribers can both find it unconnected'
+                            if reps and tests else 'state test / state switch of share() not found'),
+                           g.loc(bad[0]) if bad else fn['span'], [node_desc(g, x) for x in bad]))
+    if m < 2:
+        res.append(Finding(ID, 'L7', 'floor', False, 'ShareOp impls not found'))
     return res
 
 
